@@ -58,11 +58,17 @@ type State struct {
 	// syncBase: inside a loop with a declared modifies clause, the state right after the last synchronisation point
 	// (channel operation) on this path, or the loop-head state when there was none: the baseline of the frame check
 	// for the current segment (what other goroutines changed at a synchronisation point is not this function's write)
-	syncBase *State
+	syncBase map[*ssa.BasicBlock]*State // per enclosing loop (keyed by its header)
 }
 
 func (s *State) clone() *State {
-	n := &State{locals: make(map[*ssa.Alloc]string, len(s.locals)), heap: make(map[string]string, len(s.heap)), epoch: s.epoch, nextRef: s.nextRef, syncBase: s.syncBase}
+	n := &State{locals: make(map[*ssa.Alloc]string, len(s.locals)), heap: make(map[string]string, len(s.heap)), epoch: s.epoch, nextRef: s.nextRef}
+	if len(s.syncBase) > 0 {
+		n.syncBase = make(map[*ssa.BasicBlock]*State, len(s.syncBase))
+		for k, v := range s.syncBase {
+			n.syncBase[k] = v
+		}
+	}
 	for k, v := range s.locals {
 		n.locals[k] = v
 	}
